@@ -18,6 +18,11 @@ CHECKS = {
 
 NOT_YET = {}
 
+import glob
+for f in sorted(glob.glob(os.path.join(HERE, "checks", "c*.manifest.json"))):
+    pid = os.path.basename(f).split(".")[0].upper()
+    CHECKS[pid] = json.load(open(f))
+
 def main():
     props = [json.loads(l) for l in open(os.path.join(HERE, "properties.jsonl"))]
     checks = []
